@@ -106,6 +106,13 @@ func registerCryptoIntrinsics(m *Machine) {
 				m.addPC(tt.Implies(tt.Eq(rank(cells[i].V), rank(cells[j].V)), tt.Eq(ki, kj)), false)
 			}
 		}
+		if m.stubs["keysort"] == "presorted" {
+			// assumption (listed in evidence): the caller passes the keys already in canonical order
+			for i := 1; i < len(cells); i++ {
+				m.addPC(tt.BvCmp(OBvUlt, rank(cells[i-1].V), rank(cells[i].V)), false)
+			}
+			return s
+		}
 		for i := 1; i < len(cells); i++ {
 			for j := i; j > 0; j-- {
 				x, y := cells[j].V, cells[j-1].V
